@@ -1,6 +1,7 @@
 package main
 
 import (
+	"time"
 	"runtime"
 	"bytes"
 	"crypto/sha256"
@@ -88,6 +89,18 @@ func firstDiff(a, b []byte) int {
 	return -1
 }
 
+// c06GateSink is a slow destination: its first Write blocks until the gate opens.
+type c06GateSink struct {
+	gate, entered, done chan struct{}
+	once                sync.Once
+}
+
+func (g *c06GateSink) Write(p []byte) (int, error) {
+	g.once.Do(func() { close(g.entered) })
+	<-g.gate
+	return len(p), nil
+}
+
 func c06Replay(c *Ctx) {
 	client := &http.Client{Transport: &http.Transport{MaxIdleConnsPerHost: 4}}
 	srv := newSwapServer()
@@ -145,10 +158,21 @@ func c06Replay(c *Ctx) {
 		var stragglers sync.WaitGroup
 		defer stragglers.Wait()
 		var seen []c06Seen
+		var gated []*c06GateSink
 		h := http.HandlerFunc(func(w http.ResponseWriter, req *http.Request) {
 			mu.Lock()
 			k := len(seen)
+			gs := gated
+			gated = nil
 			mu.Unlock()
+			// left-over copies of earlier attempts' bodies are let go now and run to their end before this attempt reads
+			for _, g := range gs {
+				close(g.gate)
+				select {
+				case <-g.done:
+				case <-time.After(20 * time.Second):
+				}
+			}
 			a := attempts[min(k, nAttempts-1)]
 			s := c06Seen{method: req.Method, url: req.URL.String(), proto: req.Proto, hdr: req.Header.Clone(), cl: req.ContentLength, te: append([]string(nil), req.TransferEncoding...)}
 			switch {
@@ -203,7 +227,26 @@ func c06Replay(c *Ctx) {
 					v[0] = "REDACTED"
 				}
 			}
-			if a.Poison&128 != 0 && k < nAttempts-1 {
+			if a.Poison&128 != 0 && k < nAttempts-1 && a.How == 1 {
+				// an asynchronous copy of the failed attempt's body (io.Copy: uses the body's WriteTo when it has one) to a
+				// slow destination: still blocked in its first write when the attempt returns, resumed during the next one
+				g := &c06GateSink{gate: make(chan struct{}), entered: make(chan struct{}), done: make(chan struct{})}
+				stragglers.Add(1)
+				go func(b io.Reader) {
+					defer stragglers.Done()
+					defer close(g.done)
+					_, _ = io.Copy(g, b)
+				}(req.Body)
+				select {
+				case <-g.entered:
+				case <-g.done:
+				case <-time.After(20 * time.Second):
+				}
+				mu.Lock()
+				gated = append(gated, g)
+				mu.Unlock()
+				c.Count("gated_copy_stragglers", 1)
+			} else if a.Poison&128 != 0 && k < nAttempts-1 {
 				// something keeps the failed attempt's body and goes on reading it after the attempt has returned
 				stragglers.Add(1)
 				go func(b io.Reader) {
@@ -237,7 +280,19 @@ func c06Replay(c *Ctx) {
 			c.Violation("constructor", err.Error(), nil)
 			return
 		}
-		srv.set(buf)
+		// an earlier middleware may write header names straight into the map (back ends that are picky about header case):
+		// those names are part of the request the buffer receives
+		rawNames := map[string][]string{}
+		if i%3 == 0 {
+			rawNames = map[string][]string{"x-raw-key": {"v1", "v2"}, "SOAPAction": {"urn:x"}, "x-client-a": {"raw-twin"}}
+			c.Count("cases_with_raw_header_names", 1)
+		}
+		srv.set(http.HandlerFunc(func(w http.ResponseWriter, req *http.Request) {
+			for k, v := range rawNames {
+				req.Header[k] = append([]string(nil), v...)
+			}
+			buf.ServeHTTP(w, req)
+		}))
 		method := pick(r, []string{"POST", "PUT", "POST", "PATCH"})
 		target := srv.URL + pick(r, []string{"/upload", "/a%2Fb/c", "/p?x=1&y=%20z", "/", "/semi;colon?q=a+b"})
 		var rd io.Reader = bytes.NewReader(body)
@@ -254,6 +309,9 @@ func c06Replay(c *Ctx) {
 			req.Header.Add("X-Rand-"+randToken(r, 3), randToken(r, 1+r.IntN(20)))
 		}
 		sent := req.Header.Clone()
+		for k, v := range rawNames {
+			sent[k] = v
+		}
 		resp, err := client.Do(req)
 		desc := map[string]any{"size": size, "chunked": chunked, "mem_threshold": effMem, "attempts": attempts, "method": method, "target": target}
 		c.Eval()
